@@ -748,6 +748,9 @@ func (e *Explorer) explore(prefix []int, depth int) {
 		e.st.CapsHit = append(e.st.CapsHit, "hang")
 		return
 	}
+	if x.ReplayErr == "" && !x.Hung && len(x.Points) < len(prefix) {
+		x.ReplayErr = fmt.Sprintf("replay divergence: the execution ended after %d choice points, the replayed prefix has %d", len(x.Points), len(prefix))
+	}
 	if x.ReplayErr != "" {
 		e.st.Failures = append(e.st.Failures, Failure{Sig: "engine:replay-divergence", Msg: x.ReplayErr, Choices: x.Choices})
 		e.capped = true
